@@ -68,7 +68,7 @@ func (propC01) Gen(seed uint64, ex map[string]bool) interface{} {
 	sc.Engines = r.Range(1, 3)
 	np := r.Range(1, 3)
 	for i := 0; i < np; i++ {
-		f := Feat{Spies: true, MapLoops: true, Include: r.P(70), Inherit: r.P(50), Macros: r.P(50), ErrorsPct: 20, Dashes: true, SpyPrefix: fmt.Sprintf("p%d_", i)}
+		f := Feat{Spies: true, MapLoops: true, Include: r.P(70), Inherit: r.P(50), Macros: r.P(50), ErrorsPct: 20, Dashes: true, Sandbox: true, SpyPrefix: fmt.Sprintf("p%d_", i)}
 		sc.Progs = append(sc.Progs, genProgram(r, f))
 	}
 	nops := r.Range(5, 40)
